@@ -31,12 +31,14 @@ type resampleEntry struct {
 // phase 1: SQL text -> real parser -> wire
 
 func (e *engine) runSQL(workers int) {
-	n := e.c.Pick(24_000, 5_000_000)
+	n := e.c.Pick(20_000, 5_000_000)
 	chunks := (n + chunkSize - 1) / chunkSize
 	core.Parallel(chunks, workers, func(k int) {
 		r := e.c.Rand(fmt.Sprintf("sql/%d", k))
 		g := &sqlGen{r: r, maxDepth: e.maxDepth}
 		a := newAcc()
+		a.slot = e.slots.acquire()
+		defer e.slots.release(a.slot)
 		for i := 0; i < chunkSize && k*chunkSize+i < n; i++ {
 			var cs *sqlCase
 			if r.Intn(100) < 85 {
@@ -93,6 +95,7 @@ func (e *engine) checkSQL(cs *sqlCase, g *sqlGen, a *acc, idx int) {
 	for _, h := range cs.Hostile {
 		a.count("gen_hostile_"+h, 1)
 	}
+	e.slots.note(a.slot, "sql.Parse "+cs.Text)
 	t0 := commontimeutil.Now()
 	s1, err1, p1 := safeParse(cs.Text)
 	t1 := commontimeutil.Now()
@@ -106,11 +109,14 @@ func (e *engine) checkSQL(cs *sqlCase, g *sqlGen, a *acc, idx int) {
 	default:
 		other = g.metadata().Text
 	}
+	e.slots.note(a.slot, "sql.Parse "+other+"\n  after sql.Parse "+cs.Text)
 	_, _, _ = safeParse(other)
+	e.slots.note(a.slot, "sql.Parse "+cs.Text+"\n  after sql.Parse "+other)
 	t2 := commontimeutil.Now()
 	s2, err2, p2 := safeParse(cs.Text)
 	t3 := commontimeutil.Now()
 
+	e.slots.note(a.slot, "wire checks of "+cs.Text)
 	w := map[string]interface{}{"sql": cs.Text, "interleaved_sql": other, "case": idx}
 	if p1 != nil || p2 != nil {
 		e.violation("C17/parse/panic-escapes-Parse", fmt.Sprintf("sql.Parse panicked: %v / %v", p1, p2), w)
@@ -869,7 +875,10 @@ func (e *engine) runResample(workers int) {
 	n := len(e.resample)
 	core.Parallel(n, workers, func(i int) {
 		en := e.resample[n-1-i]
+		slot := e.slots.acquire()
+		e.slots.note(slot, "sql.Parse (second pass) "+en.Text)
 		s, err, p := safeParse(en.Text)
+		e.slots.release(slot)
 		w := map[string]interface{}{"sql": en.Text}
 		if err != nil || p != nil || s == nil {
 			e.violation("C17/parse-determinism/acceptance-differs-other-order", fmt.Sprintf("text accepted in the first pass is rejected in the second: %q (%v %v)", en.Text, err, p), w)
@@ -959,15 +968,20 @@ func (e *engine) checkTree(x stmt.Expr, where string, a *acc) {
 }
 
 func (e *engine) runTrees(workers int) {
-	n := e.c.Pick(40_000, 8_000_000)
+	n := e.c.Pick(30_000, 8_000_000)
 	chunks := (n + chunkSize - 1) / chunkSize
 	maxDepth := e.c.Pick(7, 9)
 	core.Parallel(chunks, workers, func(k int) {
 		r := e.c.Rand(fmt.Sprintf("tree/%d", k))
 		a := newAcc()
 		g := &treeGen{r: r, feats: map[string]int{}}
+		a.slot = e.slots.acquire()
+		defer e.slots.release(a.slot)
 		for i := 0; i < chunkSize && k*chunkSize+i < n; i++ {
 			idx := k*chunkSize + i
+			if i%50 == 0 {
+				e.slots.note(a.slot, fmt.Sprintf("model trees/statements, stream tree/%d, cases %d..%d", k, idx, idx+49))
+			}
 			switch {
 			case idx%10 == 7:
 				qr := g.query(r.Intn(maxDepth - 2))
